@@ -29,6 +29,9 @@ type Params struct {
 	// NoNestedOrdered leaves ordered lists inside ordered-list entries empty: ygot
 	// documents nested `ordered-by user` lists as unsupported by its gNMI renderer.
 	NoNestedOrdered bool
+	// NoOrdered leaves every ordered list empty (ygot expects ordered lists to be
+	// unmarshalled as a whole, so merge payloads must not carry entries that may exist).
+	NoOrdered bool
 }
 
 // DefaultParams is a mid-size tree.
@@ -563,7 +566,7 @@ func (g *G) fillField(s reflect.Value, i int, sch *yang.Entry, depth int, force 
 		if depth >= g.P.MaxDepth || (!force && !g.chance(g.P.PList)) {
 			return
 		}
-		if g.P.NoNestedOrdered && g.inOrdered > 0 {
+		if g.P.NoOrdered || (g.P.NoNestedOrdered && g.inOrdered > 0) {
 			return
 		}
 		om := reflect.New(sf.Type.Elem())
